@@ -14,7 +14,8 @@ PROPS_MODULE = 'SympdeModel.Props.C01'
 GEN = [leaf.generate]
 EXTRA_THEOREM_MODULES = ['SympdeModel.Gen.LeafThms']
 RULE = ('random well-typed generic expressions (scalar-, vector-, matrix-valued; grad, div, curl, rot, laplace, hessian, '
-        'bracket, dot, cross, inner, sums, products with scalars, powers, elementary functions of scalar expressions; depth <= 3/4) on mapped (physical operators) and '
+        'bracket, dot, cross, inner, sums, products with scalars, powers, elementary functions of scalar expressions; depth <= 3/4; '
+        '1D sums mixing terms lowered to a 1x1 matrix and to a bare scalar in either order; laplace of matrix-valued expressions) on mapped (physical operators) and '
         'unmapped (logical operators) domains of dimension 1-3, built with the real constructors; a case is '
         '(dim, logical, expression as TerminalExpr receives it); non-trivial = contains at least one generic operator; '
         'distinct by serialised request')
